@@ -398,8 +398,9 @@ def epoch_datetime(text):
     """'<wall ms>@n' | '<wall ms>@<signed utc offset ms>' -> datetime whose own clock shows 1970-01-01 + wall ms."""
     import datetime
     wall, off = text.split("@")
+    wall, _, sub = wall.partition("u")               # '<ms>u<microseconds below the millisecond>'
     tz = None if off == "n" else datetime.timezone(datetime.timedelta(milliseconds=int(off)))
-    return (datetime.datetime(1970, 1, 1) + datetime.timedelta(milliseconds=int(wall))).replace(tzinfo=tz)
+    return (datetime.datetime(1970, 1, 1) + datetime.timedelta(milliseconds=int(wall), microseconds=int(sub or 0))).replace(tzinfo=tz)
 
 
 def prepared_epoch_ms(shape):
